@@ -216,7 +216,7 @@ def c05(tier, seed):
 
 def c07(tier, seed):
     q = tier == "quick"
-    units = cfg_shards("seeks", "rstates", NR, seed, dict(paths=RP, ops="c07", full=0 if q else 1, images=1 if q else 2),
+    units = cfg_shards("seeks", "rstates", NR, seed, dict(paths=RP, ops="c07", full=0 if q else 1, images=2 if q else 3),
                        pick=pick_cfgs(NR, 12, seed) if q else None)
     units += shards("hist", "hist", 6 if q else 24, seed + 3, dict(histories=5 if q else 20, len=40))
     units += code_units("offsets", tier, seed + 3, 8, 30)
@@ -273,7 +273,7 @@ def c12(tier, seed):
     q = tier == "quick"
     units = cfg_shards("iow", "wstates", NW, seed, dict(paths=WP, ops="c12", full=0 if q else 1),
                        pick=pick_cfgs(NW, 12, seed) if q else None)
-    units += cfg_shards("ior", "rstates", NR, seed, dict(paths=RP, ops="c12", full=0 if q else 1, images=1 if q else 2),
+    units += cfg_shards("ior", "rstates", NR, seed, dict(paths=RP, ops="c12", full=0 if q else 1, images=2 if q else 3),
                         pick=pick_cfgs(NR, 12, seed) if q else None)
     units += shards("hist", "hist", 4 if q else 16, seed + 5, dict(histories=5 if q else 20, len=40))
     return dict(
@@ -379,6 +379,8 @@ def c17(tier, seed):
     near, pw = (8, 5) if q else (16, 10)
     units = [dict(kind="record", name="zigzag-%d" % part, driver="zigzag", module="Trace_Pure", variant=REL,
                   args=dict(seed=seed * 10 + part, part=part, near=near, pow=pw)) for part in range(5)]
+    # the whole 32-bit types, run-length encoded (2^33 evaluations, a handful of events)
+    units.append(dict(kind="record", name="zigzag32-sweep", driver="zigzag32", module="Trace_Pure", variant=REL, args=dict(seed=seed)))
     if not q:
         # more random values and the dev profile (overflow checks) as well
         units += [dict(kind="record", name="zigzag-dev-%d" % part, driver="zigzag", module="Trace_Pure", variant=DEV,
